@@ -122,11 +122,11 @@ Qed.
 
 (* ---------- wf_from / end_from ---------- *)
 Lemma wf_from_weaken lo lo' l : lo' <= lo -> wf_from lo l -> wf_from lo' l.
-Proof. destruct l as [|n r]; cbn [wf_from]; [auto|]. intros H (H1 & H2 & H3). repeat split; try assumption; lia. Qed.
+Proof. destruct l as [|n r]; cbn [wf_from]; [auto|]. intros H (H1 & H2 & H3). split; [lia| split; assumption]. Qed.
 
 Lemma wf_from_rehead lo lo' l :
   wf_from lo l -> match l with [] => True | n :: _ => lo' <= n_off n end -> wf_from lo' l.
-Proof. destruct l as [|n r]; cbn [wf_from]; [auto|]. intros (H1 & H2 & H3) H. repeat split; assumption. Qed.
+Proof. destruct l as [|n r]; cbn [wf_from]; [auto|]. intros (H1 & H2 & H3) H. split; [assumption| split; assumption]. Qed.
 
 Lemma wf_from_app lo a b : wf_from lo (a ++ b) <-> wf_from lo a /\ wf_from (end_from lo a) b.
 Proof.
@@ -176,15 +176,15 @@ Lemma wf_from_split lo a x b : wf_from lo (a ++ x :: b) ->
 Proof.
   revert lo. induction a as [|w a IH]; intros lo; cbn [app].
   - intros W. pose proof (wf_from_later _ _ _ W) as L. destruct W as (W1 & W2 & W3).
-    repeat split; try assumption; try apply W2. intros y [].
+    split; [intros y []|]. split; [exact W2|]. split; [exact W1| exact L].
   - intros W. pose proof (wf_from_later _ _ _ W) as L. destruct W as (W1 & W2 & W3).
     destruct (IH _ W3) as (I1 & I2 & I3 & I4).
     assert (Hw : n_off w < n_end w) by (destruct W2 as (_ & W2); unfold n_end; lia).
-    repeat split; try assumption; try apply I2; try lia.
+    split; [|split; [exact I2| split; [lia| exact I4]]].
     intros y [<-|Hy].
-    + repeat split; try apply W2; try lia.
+    + split; [|split; [exact W2| lia]].
       destruct (L x) as (Lx & _); [apply in_or_app; right; left; reflexivity| exact Lx].
-    + destruct (I1 y Hy) as (J1 & J2 & J3). repeat split; try assumption; try apply J2; lia.
+    + destruct (I1 y Hy) as (J1 & J2 & J3). split; [exact J1| split; [exact J2| lia]].
 Qed.
 
 (* ---------- content ---------- *)
@@ -248,4 +248,225 @@ Qed.
 Lemma content_beyond lo l z : wf_from lo l -> end_from lo l <= z -> content l z = None.
 Proof.
   intros W Hz. apply content_none. intros n Hn Hi. destruct (wf_from_In _ _ _ W Hn) as (_ & _ & H). unfold inside in Hi. lia.
+Qed.
+
+(* ---------- NodeCompare ---------- *)
+Definition meets (qs qe : Z) (n : node) : Prop := Z.max qs (n_off n) < Z.min qe (n_end n).
+
+Lemma node_compare_cases qs qe n :
+  (node_compare qs qe n = 0 /\ meets qs qe n) \/
+  (node_compare qs qe n = -1 /\ ~ meets qs qe n /\ qs < n_off n) \/
+  (node_compare qs qe n = 1 /\ ~ meets qs qe n /\ n_off n <= qs).
+Proof.
+  unfold node_compare, range_size, meets.
+  destruct (Z.min qe (n_end n) >? Z.max qs (n_off n)) eqn:E1.
+  - destruct (Z.min qe (n_end n) - Z.max qs (n_off n) >? 0) eqn:E2; [left; split; [reflexivity| lia]| lia].
+  - cbn [Z.gtb Z.compare]. destruct (qs <? n_off n) eqn:E3; [right; left| right; right]; (split; [reflexivity| lia]).
+Qed.
+
+Lemma node_compare_zero qs qe n : node_compare qs qe n = 0 <-> meets qs qe n.
+Proof. destruct (node_compare_cases qs qe n) as [(E & H)|[(E & H & _)|(E & H & _)]]; rewrite E; split; intros; try assumption; try lia; contradiction. Qed.
+
+Lemma node_compare_pos qs qe n : node_compare qs qe n > 0 <-> ~ meets qs qe n /\ n_off n <= qs.
+Proof. destruct (node_compare_cases qs qe n) as [(E & H)|[(E & H & G)|(E & H & G)]]; rewrite E; split; intros; try lia; tauto. Qed.
+
+Lemma node_compare_neg qs qe n : node_compare qs qe n < 0 <-> ~ meets qs qe n /\ qs < n_off n.
+Proof. destruct (node_compare_cases qs qe n) as [(E & H)|[(E & H & G)|(E & H & G)]]; rewrite E; split; intros; try lia; tauto. Qed.
+
+(* the sign of NodeCompare(query, .) never increases along a well-formed node list *)
+Lemma wf_mono qs qe lo l : wf_from lo l -> mono (node_compare qs qe) l.
+Proof.
+  revert lo. induction l as [|x r IH]; intros lo W; cbn [mono]; [exact I|].
+  split; [|destruct W as (_ & _ & W); exact (IH _ W)].
+  rewrite Forall_forall. intros y Hy.
+  destruct (wf_from_later _ _ _ W y Hy) as (Hl & (_ & Hy2)).
+  destruct W as (_ & (_ & Hx2) & _).
+  destruct (node_compare_cases qs qe x) as [(E & H)|[(E & H & G)|(E & H & G)]];
+  destruct (node_compare_cases qs qe y) as [(E' & H')|[(E' & H' & G')|(E' & H' & G')]];
+  rewrite E, E'; cbn [Z.sgn]; unfold meets, n_end in *; lia.
+Qed.
+
+Lemma meets_point loc n : meets loc (loc + 1) n <-> inside n loc.
+Proof. unfold meets, inside. lia. Qed.
+
+(* nodes.find(&target, NodeCompare) on a well-formed tree *)
+Lemma find_spec qs qe lo t t' r : wf_from lo (inorder t) -> sp_find (node_compare qs qe) t = (t', r) ->
+  inorder t' = inorder t /\
+  match r with
+  | Some n => In n (inorder t) /\ meets qs qe n
+  | None => forall n, In n (inorder t) -> ~ meets qs qe n
+  end.
+Proof.
+  intros W E. pose proof (sp_find_inorder (node_compare qs qe) t) as Hi. rewrite E in Hi. cbn [fst] in Hi.
+  split; [exact Hi|]. destruct r as [n|].
+  - destruct (sp_find_some (node_compare qs qe) t n) as (Hz & Hin); [rewrite E; reflexivity|].
+    split; [exact Hin| apply node_compare_zero, Hz].
+  - intros n Hn Hm. apply (sp_find_none (node_compare qs qe) t (wf_mono qs qe lo _ W)) with (x := n); [rewrite E; reflexivity| exact Hn|].
+    apply node_compare_zero, Hm.
+Qed.
+
+(* ---------- leftmost / rightmost / shape ---------- *)
+Lemma leftmost_hd t : leftmost t = hd_error (inorder t).
+Proof.
+  induction t as [|l IHl x r IHr]; [reflexivity|]. cbn [leftmost inorder].
+  destruct l as [|ll lx lr]; [reflexivity|]. rewrite IHl. cbn [inorder].
+  destruct (inorder ll ++ lx :: inorder lr) as [|a q] eqn:E; [destruct (inorder ll); discriminate| reflexivity].
+Qed.
+
+Lemma rightmost_end lo t : t <> Leaf -> match rightmost t with Some n => n_end n = end_from lo (inorder t) | None => False end.
+Proof.
+  revert lo. induction t as [|l IHl x r IHr]; intros lo Ht; [congruence|]. cbn [rightmost inorder].
+  rewrite end_from_app. cbn [end_from].
+  destruct r as [|rl rx rr]; [reflexivity|]. apply IHr. discriminate.
+Qed.
+
+Lemma single_shape (t : tree node) :
+  match t with
+  | Leaf => inorder t = []
+  | Node Leaf x Leaf => inorder t = [x]
+  | Node _ _ _ => (2 <= length (inorder t))%nat
+  end.
+Proof.
+  destruct t as [|l x r]; [reflexivity|]. destruct l as [|ll lx lr].
+  - destruct r as [|rl rx rr]; [reflexivity|]. cbn [inorder]. repeat (rewrite ?app_length; cbn [length app]). lia.
+  - cbn [inorder]. repeat (rewrite ?app_length; cbn [length app]). lia.
+Qed.
+
+Lemma inorder_tree_map f (t : tree node) : inorder (tree_map f t) = map f (inorder t).
+Proof.
+  induction t as [|l IHl x r IHr]; [reflexivity|]. cbn [tree_map inorder]. rewrite IHl, IHr, map_app. reflexivity.
+Qed.
+
+Lemma map_id_on {A} (f : A -> A) l : (forall x, In x l -> f x = x) -> map f l = l.
+Proof.
+  induction l as [|x l IH]; intros H; [reflexivity|]. cbn [map]. rewrite H by (left; reflexivity).
+  rewrite IH; [reflexivity|]. intros y Hy. apply H. right. exact Hy.
+Qed.
+
+(* set_node on a list where only the middle element has that offset *)
+Lemma set_node_split n' t a x b : inorder t = a ++ x :: b -> n_off x = n_off n' ->
+  (forall y, In y a -> n_off y <> n_off n') -> (forall y, In y b -> n_off y <> n_off n') ->
+  inorder (set_node n' t) = a ++ n' :: b.
+Proof.
+  intros Hi Hx Ha Hb. unfold set_node. rewrite inorder_tree_map, Hi, map_app. cbn [map].
+  rewrite Hx, Z.eqb_refl.
+  rewrite (map_id_on _ a), (map_id_on _ b); [reflexivity| |].
+  - intros y Hy. specialize (Hb y Hy). destruct (n_off y =? n_off n') eqn:E; [lia| reflexivity].
+  - intros y Hy. specialize (Ha y Hy). destruct (n_off y =? n_off n') eqn:E; [lia| reflexivity].
+Qed.
+
+(* ---------- replacing / inserting one node of a well-formed list ---------- *)
+Definition insideb (n : node) (z : Z) : bool := (n_off n <=? z) && (z <? n_end n).
+
+Lemma wf_from_remove_mid lo a x b : wf_from lo (a ++ x :: b) -> wf_from lo (a ++ b).
+Proof.
+  rewrite !wf_from_app. cbn [wf_from]. intros (Wa & Hx & (_ & Hp) & Wb). split; [exact Wa|].
+  apply (wf_from_weaken (n_end x)); [unfold n_end; lia| exact Wb].
+Qed.
+
+Lemma content_mid lo a x b z : wf_from lo (a ++ x :: b) ->
+  content (a ++ x :: b) z =
+  if insideb x z then nthN (Z.to_N (z - n_off x)) (n_data x) else content (a ++ b) z.
+Proof.
+  revert lo. induction a as [|w a IH]; intros lo W; cbn [app content]; [reflexivity|].
+  pose proof (wf_from_later _ _ _ W x ltac:(apply in_or_app; right; left; reflexivity)) as (Hl & _).
+  destruct W as (_ & (_ & Hw) & W). rewrite (IH _ W). fold (insideb w z).
+  destruct (insideb w z) eqn:Ew; [|reflexivity].
+  destruct (insideb x z) eqn:Ex; [|reflexivity]. unfold insideb, n_end in *. lia.
+Qed.
+
+Definition clear (l : list node) (a b : Z) : Prop := forall n, In n l -> ~ meets a b n.
+
+Lemma clear_iff lo l a b : wf_from lo l ->
+  (clear l a b <-> forall z, a <= z < b -> content l z = None).
+Proof.
+  intros W. split.
+  - intros C z Hz. apply content_none. intros n Hn Hi. apply (C n Hn). unfold meets, inside in *. lia.
+  - intros H n Hn Hm.
+    assert (Hi : inside n (Z.max a (n_off n))) by (unfold meets, inside in *; lia).
+    assert (Hz : a <= Z.max a (n_off n) < b) by (unfold meets in *; lia).
+    apply (proj2 (content_present _ _ (Z.max a (n_off n)) W)); [exists n; auto| apply H, Hz].
+Qed.
+
+(* case "location fits within an extant node": the node ending at [cur] grows by [k] bytes *)
+Lemma grow_node a c b cur k src :
+  wf_from 0 (a ++ c :: b) -> n_end c = cur -> (0 < k)%N -> (k <= lenN src)%N ->
+  (n_length c + k <= sm_page_size)%N -> clear (a ++ c :: b) cur (cur + Z.of_N (lenN src)) ->
+  let c' := mkNode (n_off c) (n_length c + k)%N (n_data c ++ takeN k src) in
+  wf_from 0 (a ++ c' :: b) /\
+  (forall z, content (a ++ c' :: b) z = spec_write (content (a ++ c :: b)) cur (takeN k src) z) /\
+  (b <> [] -> cur < end_from 0 (a ++ c :: b)) /\ n_end c' = cur + Z.of_N k.
+Proof.
+  intros W He Hk Hks Hp C c'.
+  destruct (wf_from_split _ _ _ _ W) as (Sa & (Hcl & Hcp) & Hc0 & Sb).
+  assert (Hend : n_end c' = cur + Z.of_N k) by (unfold n_end, n_len in *; cbn [n_off n_length c']; lia).
+  assert (Hok : node_ok c').
+  { split; [cbn [n_length n_data c']; rewrite lenN_app, lenN_takeN; lia|].
+    unfold n_len, PAGE in *. cbn [n_length c']. lia. }
+  assert (Hb : forall y, In y b -> cur + Z.of_N (lenN src) <= n_off y).
+  { intros y Hy. destruct (Sb y Hy) as (H1 & (_ & H2)).
+    assert (~ meets cur (cur + Z.of_N (lenN src)) y) by (apply C, in_or_app; right; right; exact Hy).
+    unfold meets, n_end in *. lia. }
+  assert (W' : wf_from 0 (a ++ c' :: b)).
+  { rewrite wf_from_app in W |- *. destruct W as (Wa & Wc). split; [exact Wa|].
+    cbn [wf_from] in Wc |- *. destruct Wc as (Wc1 & _ & Wb).
+    split; [exact Wc1|]. split; [exact Hok|].
+    apply (wf_from_rehead _ _ _ Wb). destruct b as [|y b]; [exact I|].
+    specialize (Hb y (or_introl eq_refl)). lia. }
+  split; [exact W'|]. split; [|split; [|exact Hend]].
+  - intros z. rewrite (content_mid _ _ _ _ z W'). unfold spec_write.
+    rewrite lenN_takeN. replace (N.min k (lenN src)) with k by lia.
+    rewrite (content_mid _ _ _ _ z W).
+    unfold insideb. rewrite Hend. cbn [n_off n_data c'].
+    destruct ((cur <=? z) && (z <? cur + Z.of_N k)) eqn:E1.
+    + replace ((n_off c <=? z) && (z <? cur + Z.of_N k)) with true by (unfold n_end, n_len in *; lia).
+      rewrite nthN_app_r by (unfold n_end, n_len in *; lia). f_equal. unfold n_end, n_len in *. lia.
+    + destruct ((n_off c <=? z) && (z <? n_end c)) eqn:E2.
+      * replace ((n_off c <=? z) && (z <? cur + Z.of_N k)) with true by lia.
+        apply nthN_app_l. unfold n_end, n_len in *. lia.
+      * replace ((n_off c <=? z) && (z <? cur + Z.of_N k)) with false by lia. reflexivity.
+  - intros Hne. rewrite end_from_app. cbn [end_from]. destruct b as [|y b]; [congruence|].
+    pose proof (Hb y (or_introl eq_refl)) as Hy.
+    assert (Wb : wf_from (n_end c) (y :: b)).
+    { rewrite wf_from_app in W. destruct W as (_ & W). cbn [wf_from] in W. apply W. }
+    destruct (wf_from_In _ _ _ Wb (or_introl eq_refl)) as (_ & (_ & Hyp) & Hle). unfold n_end in *. lia.
+Qed.
+
+(* case "we need a new node": a node [cur, cur+k) is inserted at its place *)
+Lemma insert_node a b cur k src :
+  wf_from 0 (a ++ b) -> 0 <= cur -> (0 < k)%N -> (k <= lenN src)%N -> (k <= sm_page_size)%N ->
+  (forall y, In y a -> n_off y <= cur) -> (forall y, In y b -> cur < n_off y) ->
+  clear (a ++ b) cur (cur + Z.of_N (lenN src)) ->
+  let v' := mkNode cur k (takeN k src) in
+  wf_from 0 (a ++ v' :: b) /\
+  (forall z, content (a ++ v' :: b) z = spec_write (content (a ++ b)) cur (takeN k src) z) /\
+  (forall y, In y a -> n_off y <> cur) /\
+  (b <> [] -> cur < end_from 0 (a ++ b)) /\ (b = [] -> end_from 0 (a ++ b) <= cur).
+Proof.
+  intros W Hc Hk Hks Hp Ha Hb C v'.
+  assert (Hend : n_end v' = cur + Z.of_N k) by reflexivity.
+  assert (Hok : node_ok v').
+  { split; [cbn [n_length n_data v']; rewrite lenN_takeN; lia|]. unfold n_len, PAGE. cbn [n_length v']. lia. }
+  pose proof W as W0. rewrite wf_from_app in W. destruct W as (Wa & Wb).
+  assert (Ha2 : forall y, In y a -> n_end y <= cur).
+  { intros y Hy. destruct (wf_from_In _ _ _ Wa Hy) as (_ & (_ & Hyp) & _).
+    assert (~ meets cur (cur + Z.of_N (lenN src)) y) by (apply C, in_or_app; left; exact Hy).
+    specialize (Ha y Hy). unfold meets, n_end in *. lia. }
+  assert (Hb2 : forall y, In y b -> cur + Z.of_N (lenN src) <= n_off y).
+  { intros y Hy. destruct (wf_from_In _ _ _ Wb Hy) as (_ & (_ & Hyp) & _).
+    assert (~ meets cur (cur + Z.of_N (lenN src)) y) by (apply C, in_or_app; right; exact Hy).
+    specialize (Hb y Hy). unfold meets, n_end in *. lia. }
+  assert (Hea : end_from 0 a <= cur) by (apply end_from_le; [exact Hc| exact Ha2| exact Wa]).
+  assert (W' : wf_from 0 (a ++ v' :: b)).
+  { rewrite wf_from_app. split; [exact Wa|]. cbn [wf_from]. split; [exact Hea|]. split; [exact Hok|].
+    apply (wf_from_rehead _ _ _ Wb). destruct b as [|y b]; [exact I|].
+    specialize (Hb2 y (or_introl eq_refl)). lia. }
+  split; [exact W'|]. split; [|split; [|split]].
+  - intros z. rewrite (content_mid _ _ _ _ z W'). unfold spec_write, insideb.
+    rewrite lenN_takeN. replace (N.min k (lenN src)) with k by lia. rewrite Hend. reflexivity.
+  - intros y Hy. destruct (wf_from_In _ _ _ Wa Hy) as (_ & (_ & Hyp) & _). specialize (Ha2 y Hy). unfold n_end in *. lia.
+  - intros Hne. rewrite end_from_app. destruct b as [|y b]; [congruence|].
+    destruct (wf_from_In _ _ _ Wb (or_introl eq_refl)) as (_ & (_ & Hyp) & Hle).
+    specialize (Hb y (or_introl eq_refl)). unfold n_end in *. lia.
+  - intros ->. rewrite app_nil_r. exact Hea.
 Qed.
